@@ -331,7 +331,7 @@ Definition check_build (inp : input) (impl_status : status) (impl_dims : Z * Z) 
   | Ok d =>
       status_eqb impl_status SOk
       && (if d_user d then true else (fst impl_dims =? d_nl d) && (snd impl_dims =? d_nr d))
-      && forallb (fun c => let '(l, r, v) := c in v =? cell_of_stores (d_nl d) (d_stores d) l r) impl_cells
+      && (if d_user d then true else forallb (fun c => let '(l, r, v) := c in v =? cell_of_stores (d_nl d) (d_stores d) l r) impl_cells)
       && dict_valid d && stores_in_range d
       && loads_and_analyses
   | Err => status_eqb impl_status SErr
